@@ -5,11 +5,18 @@
   removals of TransformToMarkdown.transform), Verif.Model.Tabs (tab expansion, final-newline
   correction, pragma re-insertion).  The 5 000-line per-token regenerator is not modelled
   (DESIGN §6 C02: partial); it is reached by the document-level identity oracle of tools/props/c02.py.
+
+  Verif.Model.LeadingSpaces (the newline-joined per-line prefix store of list / block-quote tokens, its producer
+  methods and the regenerator's index look-ups) and Verif.Model.LeafFields (which pieces of a leaf block's opening
+  line go into the token, and how they are written back) are the two building blocks of the mechanism below the
+  regenerator: sections "The per-line prefix store" and "Per-leaf field splits".
 -/
 import Verif.Model.Codec
 import Verif.Model.Tabs
 import Verif.Lemmas.Codec
 import Verif.Lemmas.Tabs
+import Verif.Lemmas.LeadingSpaces
+import Verif.Lemmas.LeafFields
 namespace Verif.Props.C02
 open Verif.Model.Codec Verif.Lemmas.Codec Verif.Model.Tabs Verif.Lemmas.Tabs
 open Verif.Model.Lines (NL joinNL splitNL)
@@ -250,5 +257,313 @@ theorem pragma_reinsert_excluded :
       (strip (fun l => l.head? == some '!') (splitNL "!p\n".toList)).2 = "!p".toList ∧
     reinsert (joinNL (strip (fun l => l.head? == some '!') (splitNL "!\tp\na".toList)).1)
       (strip (fun l => l.head? == some '!') (splitNL "!\tp\na".toList)).2 = "!   p\na".toList := by decide
+
+/-! ## The per-line prefix store (`LeadingSpaces`) -/
+section LeadingSpaces
+open Verif.Model.LeadingSpaces Verif.Lemmas.LeadingSpaces
+
+deriving instance DecidableEq for Except
+
+/-- **List token.**  Recording the prefixes of consecutive lines with `add_leading_spaces` and reading the store back
+with the regenerator's `__adjust` look-ups gives the prefixes back — for every list of prefixes none of which
+contains a newline; the empty list included (`None` is "no part", `""` is "one empty part"). -/
+theorem leading_store_roundtrip (ps : List Str) (h : ∀ p ∈ ps, NL ∉ p) :
+    consumeAllList (storeAllList ps) = .ok ps := by
+  cases ps with
+  | nil => rfl
+  | cons p ps =>
+    rw [storeAllList_cons]
+    unfold consumeAllList partCount
+    simp only
+    rw [drain_eq _ _ 0 (by omega)]
+    simp only [List.drop_zero, List.take_length]
+    rw [show splitNL (joinNL (p :: ps)) = p :: ps from Verif.Lemmas.Lines.splitOn_joinOn NL (p :: ps) (by simp) h]
+
+example : storeAllList ["  ".toList, [], "   ".toList] = ⟨some "  \n\n   ".toList⟩ ∧
+    consumeAllList (storeAllList ["  ".toList, [], "   ".toList]) = .ok ["  ".toList, [], "   ".toList] ∧
+    storeAllList [[]] = ⟨some []⟩ ∧ consumeAllList (storeAllList [[]]) = .ok [[]] ∧
+    storeAllList [] = ⟨none⟩ ∧ consumeAllList (storeAllList []) = .ok [] := by decide
+
+/-- **Block-quote token.**  The same with `add_bleading_spaces` + `leading_text_index += 1` and the token's own
+`calculate_next_bleading_space_part()`: what comes back is the list of prefixes *up to the store's ambiguity* — leading
+empty prefixes are swallowed and "nothing" reads back as one empty prefix (`bqNormal`). -/
+theorem leading_store_roundtrip_bq (ps : List Str) (h : ∀ p ∈ ps, NL ∉ p) :
+    consumeAllBq (storeAllBq ps) = .ok (bqNormal ps) := by
+  rw [consumeAllBq_eq _ (storeAllBq_tabbed ps), storeAllBq_leading]
+  unfold bqNormal
+  cases hr : ps.dropWhile (fun p => p.isEmpty) with
+  | nil => rfl
+  | cons q qs =>
+    have hn := dropWhile_noNL ps h
+    rw [hr] at hn
+    simp only
+    rw [show splitNL (joinNL (q :: qs)) = q :: qs from Verif.Lemmas.Lines.splitOn_joinOn NL (q :: qs) (by simp) hn]
+
+/-- … which is the identity exactly on the lists that start with a non-empty prefix (a block quote's first line
+always has at least its `>`). -/
+theorem leading_store_roundtrip_bq_partial (p : Str) (ps : List Str) (hp : p ≠ []) (h : ∀ q ∈ p :: ps, NL ∉ q) :
+    consumeAllBq (storeAllBq (p :: ps)) = .ok (p :: ps) := by
+  rw [leading_store_roundtrip_bq _ h]
+  unfold bqNormal
+  have : p.isEmpty = false := by cases p with | nil => exact absurd rfl hp | cons _ _ => rfl
+  simp [List.dropWhile_cons, this]
+
+example : (storeAllBq ["> ".toList, ">".toList, "> ".toList]).leading = "> \n>\n> ".toList ∧
+    (storeAllBq ["> ".toList, ">".toList, "> ".toList]).idx = 3 ∧
+    consumeAllBq (storeAllBq ["> ".toList, ">".toList, "> ".toList]) = .ok ["> ".toList, ">".toList, "> ".toList] := by
+  decide
+
+/-- The excluded points are real.  (1) `"".split("\n") == [""]`: the empty block-quote store reads back as one empty
+prefix; (2) an empty prefix added to the empty store disappears, so the next line's prefix is read one line early and
+the index ends up outside the store; (3) a prefix containing a newline comes back as two. -/
+theorem leading_store_excluded :
+    consumeAllBq (storeAllBq []) = .ok [[]] ∧
+    (storeAllBq [[], ">".toList]).leading = ">".toList ∧ consumeAllBq (storeAllBq [[], ">".toList]) = .ok [">".toList] ∧
+    (storeAllBq [[], ">".toList]).idx = 2 ∧ (storeAllBq [[], ">".toList]).count = 1 ∧
+    (storeAllBq [[], ">".toList]).calcNext = .error .index ∧
+    consumeAllList (storeAllList ["a\nb".toList]) = .ok ["a".toList, "b".toList] := by decide
+
+/-- **The index never leaves the store.**  Along every run of token operations that respects the protocol `Legal`
+(a line's prefix is free of newlines and is not added to an empty store that has already been indexed; the last part
+is only removed after a line has been recorded; the index is only advanced, or written directly, inside the store) the
+block-quote token's
+`leading_text_index` satisfies `0 ≤ idx ≤ len(bleading_spaces.split("\n"))`. -/
+theorem leading_index_inv (ops : List BqOp) (t : BqTok) (h : BqTok.LegalRun BqTok.new ops t) :
+    0 ≤ t.idx ∧ t.idx ≤ t.count :=
+  bq_run_inv h ⟨by decide, by decide⟩
+
+/-- one step of it, from any state -/
+theorem leading_index_step (t : BqTok) (op : BqOp) (hI : 0 ≤ t.idx ∧ t.idx ≤ t.count) (hL : t.Legal op) :
+    0 ≤ (t.apply op).idx ∧ (t.apply op).idx ≤ (t.apply op).count := bq_step_inv t op hI hL
+
+/-- a legal run through every kind of operation: three lines, the last replaced (`remove` + `add` as `TabHelper` does),
+two parts consumed, the index reset -/
+example : BqTok.LegalRun BqTok.new
+    [.addLine "> ".toList none, .addLine ">".toList none, .addLine ">  ".toList none, .removeLast, .add "> ".toList false none,
+     .resetIdx, .next, .next, .peek (-1)]
+    ⟨"> \n>\n> ".toList, 2, [], true⟩ := by
+  repeat (first | exact BqTok.LegalRun.nil _ | refine BqTok.LegalRun.cons (by decide) ?_)
+
+/-- …and where the protocol ends: (1) an empty first prefix followed by a second line breaks the bound; (2) removing
+from a store no line was recorded in makes the index negative — and a negative index *wraps around* in the next
+look-up instead of failing; (3) a look-up past the end raises `IndexError` in the token's method, fails the assertion
+in `__adjust`, and is silently skipped (no prefix at all) in `__apply_primary_transformation_adjust_container_line`. -/
+theorem leading_index_excluded :
+    ((BqTok.new.apply (.addLine [] none)).apply (.addLine ">".toList none)).idx = 2 ∧
+    ((BqTok.new.apply (.addLine [] none)).apply (.addLine ">".toList none)).count = 1 ∧
+    (BqTok.new.apply .removeLast).idx = -1 ∧
+    ((BqTok.new.removeLast.2.add "x".toList).add "y".toList).calcNext false 0
+      = .ok ("y".toList, ⟨"x\ny".toList, -1, [], true⟩) ∧
+    (storeAllBq [">".toList]).calcNext = .error .index ∧
+    adjustPart (some ">".toList) 1 = .error .assertion ∧
+    primaryList ⟨some ">".toList⟩ 1 = .ok none ∧ primaryBq (storeAllBq [">".toList]) 1 = none := by decide
+
+/-- `__adjust` fails past the end, for every store -/
+theorem adjust_past_end (s : Str) (idx : Nat) (h : (splitNL s).length ≤ idx) :
+    adjustPart (some s) idx = .error .assertion :=
+  adjustPart_past (some s) idx h (by simp)
+
+/-- **`remove_last_leading_space` undoes `add_leading_spaces`**, from every state of the list token, for every part
+without a newline. -/
+theorem remove_last_undoes_add (t : ListTok) (ws : Str) (h : NL ∉ ws) : (t.add ws).removeLast = .ok (ws, t) := by
+  cases t with
+  | mk leading =>
+    cases leading with
+    | none =>
+      simp only [ListTok.add, ListTok.removeLast]
+      rw [rfindNL_none.mpr h]
+    | some s =>
+      simp only [ListTok.add, ListTok.removeLast]
+      rw [rfindNL_append h]
+      simp
+
+/-- the same for the block-quote token and its per-line step: the removed part is the added one, the store and the
+index are as before (only `weird_kludge_five` may differ). -/
+theorem remove_last_undoes_add_bq (t : BqTok) (ws : Str) (h : NL ∉ ws) :
+    (t.addLine ws).removeLast.1 = ws ∧ (t.addLine ws).removeLast.2.leading = t.leading ∧
+    (t.addLine ws).removeLast.2.idx = t.idx ∧ (t.addLine ws).removeLast.2.tabbed = t.tabbed := by
+  by_cases hne : t.leading = []
+  · have hl := addLine_leading_empty t ws hne
+    unfold BqTok.removeLast
+    rw [hl, rfindNL_none.mpr h]
+    refine ⟨rfl, hne.symm, ?_, addLine_tabbed t ws⟩
+    show (t.addLine ws).idx - 1 = t.idx
+    rw [addLine_idx]; omega
+  · have hl := addLine_leading_nonempty t ws hne
+    unfold BqTok.removeLast
+    rw [hl, rfindNL_append h]
+    refine ⟨by simp, by simp, ?_, addLine_tabbed t ws⟩
+    show (t.addLine ws).idx - 1 = t.idx
+    rw [addLine_idx]; omega
+
+example : (ListTok.new.add "  ".toList).removeLast = .ok ("  ".toList, ListTok.new) ∧
+    ((ListTok.new.add "  ".toList).add [] ).removeLast = .ok ([], ListTok.new.add "  ".toList) := by decide
+
+/-- The boundary: (1) a part with a newline is only half removed; (2) `remove_last_leading_space` on the `None`
+store is an `AssertionError`, on the `""` store it returns `""` and leaves `None`: for the list token the two are
+different states; (3) for the block-quote token they are the same state, and removing twice what was added twice
+does not restore the index relation; (4) the tabbed original recorded with a part stays behind when the part is
+removed, and is served for whatever part is recorded there next. -/
+theorem remove_last_excluded :
+    (ListTok.new.add "a\nb".toList).removeLast = .ok ("b".toList, ⟨some "a".toList⟩) ∧
+    ListTok.new.removeLast = .error .assertion ∧
+    (ListTok.new.add []).removeLast = .ok ([], ListTok.new) ∧ ListTok.new.add [] ≠ ListTok.new ∧
+    (BqTok.new.addLine []).leading = BqTok.new.leading ∧
+    (((BqTok.new.addLine []).addLine []).removeLast.2.removeLast.2).idx = 0 ∧
+    ((BqTok.new.addLine []).addLine []).count = 1 ∧
+    (((BqTok.new.addLine ">".toList (some "\t>".toList)).removeLast.2).addLine "> ".toList).resetIdx.calcNext
+      = .ok ("\t>".toList, ⟨"> ".toList, 1, [(0, "\t>".toList)], true⟩) := by decide
+
+end LeadingSpaces
+
+/-! ## Per-leaf field splits (`f_fields`) -/
+section LeafFields
+open Verif.Model.Recognisers Verif.Model.LeafFields
+
+/-- **ATX heading** (opening sequence + closing sequence): every accepted line is stored as seven consecutive
+pieces — indentation, `#`×n, white space, text, white space, `#`×m, white space — and `__rehydrate_atx_heading` /
+`__rehydrate_text` / `__rehydrate_atx_heading_end` concatenate exactly these: nothing lost, nothing twice. -/
+theorem atx_fields (line : List Char) (h : lineAtx line = .ok true) :
+    ∃ f, fieldsAtx line = .ok (some f) ∧ f.reassemble = line := by
+  have hs := fieldsAtx_isSome line
+  rw [h] at hs
+  cases hf : fieldsAtx line with
+  | error e => rw [hf] at hs; cases hs
+  | ok o =>
+    cases o with
+    | none => rw [hf] at hs; cases hs
+    | some f => exact ⟨f, rfl, fieldsAtx_reassemble line f hf⟩
+
+/-- fields exist only for accepted lines, and computing them never raises -/
+theorem atx_fields_iff (line : List Char) : (∃ f, fieldsAtx line = .ok (some f)) ↔ lineAtx line = .ok true := by
+  rw [← fieldsAtx_isSome]
+  cases fieldsAtx line with
+  | error e => simp [Except.map]
+  | ok o => cases o <;> simp [Except.map]
+
+example : ∃ f, fieldsAtx "  ## a b ##  ".toList = .ok (some f) ∧ f.reassemble = "  ## a b ##  ".toList :=
+  atx_fields _ (by rw [lineAtx_eval]; decide)
+
+set_option linter.unusedSimpArgs false in
+/-- the seven pieces of `"  ## a b ##  "`; and a `#` run that is not a closing sequence stays in the text, with the
+white space after it (`"# a#  "`) -/
+example : fieldsAtx "  ## a b ##  ".toList = .ok (some ⟨"  ".toList, 2, " ".toList, "a b".toList, " ".toList, 2, "  ".toList⟩) ∧
+    fieldsAtx "# a#  ".toList = .ok (some ⟨[], 1, " ".toList, "a#  ".toList, [], 0, []⟩) := by
+  constructor
+  · simp [fieldsAtx, leadWs_eq, isAtxHeading, collectWhileCharVerified_eq, collectWhileSpaces, collectWhileOneOf_eq, scanTo, Verif.Model.Recognisers.slice,
+      atxAdjust, extractSpacesFromEnd, sfeLoop, atxHashLoop, charAt, isWsAt, isCharAt, isCharAtOneOf, collectBackwardsSpacesVerified,
+      collectBackwardsOneOf, cbwLoop, lenLe, Verif.Model.Recognisers.calcLength, tabStep, isWsChar, Verif.Model.Recognisers.SP,
+      Verif.Model.Recognisers.TAB]
+  · simp [fieldsAtx, leadWs_eq, isAtxHeading, collectWhileCharVerified_eq, collectWhileSpaces, collectWhileOneOf_eq, scanTo, Verif.Model.Recognisers.slice,
+      atxAdjust, extractSpacesFromEnd, sfeLoop, atxHashLoop, charAt, isWsAt, isCharAt, isCharAtOneOf, collectBackwardsSpacesVerified,
+      collectBackwardsOneOf, cbwLoop, lenLe, Verif.Model.Recognisers.calcLength, tabStep, isWsChar, Verif.Model.Recognisers.SP,
+      Verif.Model.Recognisers.TAB]
+
+/-- **Thematic break**: indentation + the rest of the line. -/
+theorem thematic_fields (line : List Char) (h : lineThematic line = .ok true) :
+    ∃ f, fieldsThematic line = .ok (some f) ∧ f.reassemble = line := by
+  have hs := fieldsThematic_isSome line
+  rw [h] at hs
+  cases hf : fieldsThematic line with
+  | error e => rw [hf] at hs; cases hs
+  | ok o =>
+    cases o with
+    | none => rw [hf] at hs; cases hs
+    | some f => exact ⟨f, rfl, fieldsThematic_reassemble line f hf⟩
+
+example : ∃ f, fieldsThematic " * * *\t".toList = .ok (some f) ∧ f.reassemble = " * * *\t".toList :=
+  thematic_fields _ (by rw [lineThematic_eval]; decide)
+
+/-- **Setext underline**: indentation, the run of `=` / `-` (as character and count), trailing white space. -/
+theorem setext_fields (line : List Char) (h : lineSetext line = .ok true) :
+    ∃ f, fieldsSetext line = .ok (some f) ∧ f.reassemble = line := by
+  have hs := fieldsSetext_isSome line
+  rw [h] at hs
+  cases hf : fieldsSetext line with
+  | error e => rw [hf] at hs; cases hs
+  | ok o =>
+    cases o with
+    | none => rw [hf] at hs; cases hs
+    | some f => exact ⟨f, rfl, fieldsSetext_reassemble line f hf⟩
+
+example : fieldsSetext "  ===  ".toList = .ok (some ⟨"  ".toList, '=', 3, "  ".toList⟩) := by
+  simp [fieldsSetext, leadWs_eq, collectWhileCharVerified_eq, extractSpacesVerified, extractSpaces_eq, scanTo, Verif.Model.Recognisers.slice, charAt,
+    isCharAtOneOf, lenLe, Verif.Model.Recognisers.calcLength, tabStep, isWsChar, Verif.Model.Recognisers.SP, Verif.Model.Recognisers.TAB]
+
+/-- **Closing fence**: indentation, fence length (the character is the opening fence's), trailing spaces.  (A line with a
+tab after the fence does not close the block: `onlySpacesAfterFence`, part of `lineFenceClose`.) -/
+theorem fence_close_fields (line : List Char) (fc : Char) (fn : Nat) (h : lineFenceClose line fc fn = .ok true) :
+    ∃ f, fieldsFenceClose line fc fn = .ok (some f) ∧ f.reassemble fc = line := by
+  have hs := fieldsFenceClose_isSome line fc fn
+  rw [h] at hs
+  cases hf : fieldsFenceClose line fc fn with
+  | error e => rw [hf] at hs; cases hs
+  | ok o =>
+    cases o with
+    | none => rw [hf] at hs; cases hs
+    | some f => exact ⟨f, rfl, fieldsFenceClose_reassemble line fc fn f hf⟩
+
+example : lineFenceClose " ~~~~ ".toList '~' 3 = .ok true ∧
+    fieldsFenceClose " ~~~~ ".toList '~' 3 = .ok (some ⟨" ".toList, 4, " ".toList⟩) := by
+  constructor <;>
+  simp [lineFenceClose, isFenceClose, fieldsFenceClose, onlySpacesAfterFence, Except.map, leadWs_eq, isFencedCodeBlock, collectWhileCharVerified_eq, extractAsciiWs_eq,
+    extractSpacesVerified, extractSpaces_eq, scanTo, Verif.Model.Recognisers.slice, charAt, isCharAtOneOf, lenLe, Verif.Model.Recognisers.calcLength, tabStep,
+    asciiWs, isWsChar, Verif.Model.Recognisers.SP, Verif.Model.Recognisers.TAB]
+
+/-- **Blank line**: the whole line is the token's one field. -/
+theorem blank_fields (line : List Char) (h : isBlankLine line = true) : fieldsBlank line = .ok (some line) := by
+  rw [fieldsBlank_eq, if_pos h]
+
+example : fieldsBlank " \t\x0c".toList = .ok (some " \t\x0c".toList) := blank_fields _ (by decide)
+
+/-- **Opening fence, partial.**  Indentation, fence, white space, info string, rest: consecutive pieces of the line —
+for every accepted line that has an info string or no white space after the fence … -/
+theorem fence_open_fields_partial (line : List Char) (h : lineFenceOpen line = .ok true) :
+    ∃ f, fieldsFenceOpen line = .ok (some f) ∧ ((f.info ≠ [] ∨ f.wsBeforeInfo = []) → f.reassemble = line) := by
+  have hs := fieldsFenceOpen_isSome line
+  rw [h] at hs
+  cases hf : fieldsFenceOpen line with
+  | error e => rw [hf] at hs; cases hs
+  | ok o =>
+    cases o with
+    | none => rw [hf] at hs; cases hs
+    | some f => exact ⟨f, rfl, fieldsFenceOpen_reassemble_partial line f hf⟩
+
+example : fieldsFenceOpen "``` py x  ".toList = .ok (some ⟨[], '`', 3, " ".toList, "py".toList, " x  ".toList⟩) := by
+  simp [fieldsFenceOpen, leadWs_eq, isFencedCodeBlock, collectWhileCharVerified_eq, extractAsciiWs_eq, extractUntilSpaces_eq, scanTo, Verif.Model.Recognisers.slice,
+    charAt, collectBackwardsOneOf, cbwLoop, isCharAtOneOf, lenLe, Verif.Model.Recognisers.calcLength, asciiWs, isWsChar,
+    Verif.Model.Recognisers.SP, Verif.Model.Recognisers.TAB]
+
+/-- … and on the excluded shape — no info string, white space after the fence — the white space is stored twice
+(`extracted_whitespace_before_info_string` and `text_after_extracted_text`) and written back twice (§8 F-FENCE-TRAILWS):
+the leaf-level half of C02 fails there, for every such line. -/
+theorem fence_open_fields_excluded (line : List Char) (f : FenceOpenFields) (h : fieldsFenceOpen line = .ok (some f))
+    (h1 : f.info = []) (h2 : f.wsBeforeInfo ≠ []) :
+    f.afterInfo = f.wsBeforeInfo ∧ f.reassemble = line ++ f.wsBeforeInfo ∧ f.reassemble ≠ line := by
+  obtain ⟨ha, hb⟩ := fieldsFenceOpen_duplicate line f h h1 h2
+  refine ⟨hb, ha, ?_⟩
+  rw [ha]
+  intro he
+  have := congrArg List.length he
+  simp only [List.length_append] at this
+  have : f.wsBeforeInfo.length = 0 := by omega
+  exact h2 (List.eq_nil_of_length_eq_zero this)
+
+/-- the witness: `` ```␣␣ `` is stored as (…, `"  "`, `""`, `"  "`) and comes back as `` ```␣␣␣␣ `` -/
+example : fieldsFenceOpen "```  ".toList = .ok (some ⟨[], '`', 3, "  ".toList, [], "  ".toList⟩) ∧
+    (⟨[], '`', 3, "  ".toList, [], "  ".toList⟩ : FenceOpenFields).reassemble = "```    ".toList := by
+  constructor
+  · simp [fieldsFenceOpen, leadWs_eq, isFencedCodeBlock, collectWhileCharVerified_eq, extractAsciiWs_eq, extractUntilSpaces_eq, scanTo, Verif.Model.Recognisers.slice,
+      charAt, collectBackwardsOneOf, cbwLoop, isCharAtOneOf, lenLe, Verif.Model.Recognisers.calcLength, asciiWs, isWsChar,
+      Verif.Model.Recognisers.SP, Verif.Model.Recognisers.TAB]
+  · decide
+
+theorem fence_open_fields_iff (line : List Char) : (∃ f, fieldsFenceOpen line = .ok (some f)) ↔ lineFenceOpen line = .ok true := by
+  rw [← fieldsFenceOpen_isSome]
+  cases fieldsFenceOpen line with
+  | error e => simp [Except.map]
+  | ok o => cases o <;> simp [Except.map]
+
+end LeafFields
 
 end Verif.Props.C02
